@@ -247,10 +247,7 @@ func plan(seed int64, tier string) []traceSpec {
 	seen := map[string]int{}
 	for i, k := range kns {
 		ks := k.kinds
-		if !thorough { // quick: one scenario per finding id, the victim kind rotates with the seed
-			if seen[k.id] > 0 {
-				continue
-			}
+		if !thorough { // quick: every scenario (both directions of each handshake class) with one victim kind, rotating with the seed
 			ks = []string{k.kinds[int(seed+int64(i))%len(k.kinds)]}
 		}
 		seen[k.id]++
